@@ -37,6 +37,7 @@ func TestVerif(t *testing.T) {
 			"Oracle (os, crypto/sha256, compress/gzip, archive/tar only): Add's descriptor carries the name, digest/size = sha256/length of the bytes the source store serves, the recorded uncompressed digest = sha256 of the gunzipped bytes, the archive decoded with archive/tar lists exactly the source entries (type, bytes, link target, mode); the restored tree is compared recursively below the added name (paths, types, bytes, link targets, modes masked with the process umask or exact with PreservePermissions; the added directory's own mode only with PreservePermissions; single files' modes and timestamps never); with SkipUnpack the stored file must be the descriptor's bytes; " +
 			"every name must materialise, names sharing bytes included, except that under ForceCAS one name per group of equal bytes suffices; per tree and TarReproducible setting a second copy of the tree with different atime/mtime everywhere is added to a second store: with TarReproducible the descriptors must be deeply equal; " +
 			"for every directory, TarReproducible setting and PreservePermissions setting a direct Push of the true blob with a well-formed but wrong uncompressed digest (digest of the empty string; the digest of the compressed bytes) must fail. " +
+			"Separately (readd): one path added twice under two names and rewritten in between (same length / longer / shorter, old modification time kept or not; a file, or a directory holding it): the second descriptor names the bytes stored for it. " +
 			"evaluations = (case, configuration) pairs judged; non-trivial = distinct cases with at least one entry below the added directory or at least two items",
 		Assumptions: []string{
 			"the process runs as uid 0: permission failures a non-root user would see are unreachable; setuid/setgid/sticky bits are outside the alphabet",
@@ -313,6 +314,7 @@ func jobs(tier string) []driver.Job {
 			out = append(out, driver.Job{Name: name, Run: func(c *driver.Ctx) { runShard(c, fam, th, sh, nsh) }})
 		}
 	}
+	out = append(out, readdJob())
 	return out
 }
 
